@@ -85,8 +85,10 @@ pub fn worker_main(args: WorkerArgs) {
     while index < args.total {
         {
             let mut out = stdout.lock();
-            let _ = writeln!(out, "S {index}");
-            let _ = out.flush();
+            // The supervisor is gone when its end of the pipe is: stop instead of running on.
+            if writeln!(out, "S {index}").is_err() || out.flush().is_err() {
+                std::process::exit(0);
+            }
         }
         let seed = case_seed(args.seed, &args.property, index);
         // A panic in the harness's own code (generator, oracle) must never look like a crash
